@@ -81,9 +81,17 @@ CHECKS.update({
              "fluxes are steady-state and in bounds, keep the objective at the requested fraction of the true optimum, total |flux| equals "
              "the minimum of an independent LP with |.| auxiliaries (own KKT certificate), objective_value equals it, index = requested "
              "reactions; linear MOMA: feasible, distance to the given reference minimal, objective_value equals it; for every value of "
-             "the symbolic bounds and with the reference itself symbolic (taken from the stub).",
-        note="NOT claimed: ROOM in both variants (MILP binaries / bilinear coefficients) and quadratic MOMA (no QP solver) - stated as "
-             "outside. Bounded: templates T1-T4,T7 with up to all bounds symbolic. " + NOTE_COMMON, ref="4/C09"),
+             "the symbolic bounds and with the reference itself symbolic (taken from the stub). ROOM (MILP variant) on the stub's MILP "
+             "contract (binary switches enumerated inside the formula, each assignment certified by KKT or by a quantifier-free "
+             "infeasibility condition): result feasible, objective_value = number of fluxes outside the documented band around the "
+             "reference, and no distribution of the (knocked-out) model leaves the band in fewer reactions (universal), for all values of "
+             "two symbolic reactions' bounds, concrete references, (delta, epsilon) from a list, configured default bounds wider or "
+             "narrower than the model's. Linear ROOM: concrete models/references (81 combinations), the solver quantifying over every "
+             "optimal solution of the LP contract: relaxed sum = optimum of the documented relaxed problem.",
+        note="ROOM bounds: T1 with 3 binaries (quick), band edges compared with a 1e-9 margin because add_room computes them in float "
+             "arithmetic; linear ROOM has bilinear coefficients (bound x switch) and is therefore checked for concrete bounds only; the "
+             "symbolic-reference variant of ROOM is thorough-only. NOT claimed: quadratic MOMA (no QP solver). Bounded: templates "
+             "T1-T4,T7 with up to all bounds symbolic. " + NOTE_COMMON, ref="4/C09"),
 })
 
 CHECKS.update({
@@ -177,16 +185,25 @@ CHECKS.update({
              "or a symbolic vector assumed feasible and optimal (given in model order or reversed, with or without another problem "
              "having been solved last): result is "
              "steady-state, in bounds, same objective value and boundary fluxes, no sign flip or growth per reaction, and no steady-state "
-             "distribution with the same boundary fluxes/objective/signs and smaller total flux exists (proved universally).",
-        note="NOT claimed: add_loopless (binary indicator variables, big-M, float SVD null space) - MILP, outside the LP contract. "
-             + NOTE_COMMON, ref="4/C17"),
+             "distribution with the same boundary fluxes/objective/signs and smaller total flux exists (proved universally). "
+             "add_loopless followed by optimize on the stub's MILP contract (one binary indicator per internal reaction, all assignments "
+             "enumerated inside the formula; null-space rows from the float SVD of the concrete stoichiometry): status optimal iff a "
+             "cycle-free steady-state distribution exists (oracle: no elementary internal cycle runs in its orientation), the reported "
+             "solution is feasible and cycle-free, and no cycle-free distribution has a better objective (universal); bounds set before "
+             "or after add_loopless, reactions written backwards with |lb| above every upper bound, objective on a boundary or cycle "
+             "reaction, max/min.",
+        note="add_loopless bounds: T3, T10, T12 (2-3 binaries), 2 symbolic reactions; bounds edited after add_loopless stay within the "
+             "largest bound the model had when it was called. " + NOTE_COMMON, ref="4/C17"),
     "C18": dict(
         text="Model.medium setter/getter and linear minimal_medium on template T5 (exchanges written in both directions, sink, demand; "
              "SBO-annotated or heuristic classification): listed import bound = value, unlisted imports closed, export bounds and non-"
              "exchanges proved untouched, getter = entries with positive import, set(get) identity; minimal medium None iff no medium "
-             "suffices (oracle), total import equals an independent LP minimum, returned medium is sufficient (witnessed), model unchanged.",
-        note="NOT claimed: minimize_components (binary variables). Forced-import situations where the setter must fail are a stated "
-             "precondition. " + NOTE_COMMON, ref="4/C18"),
+             "suffices (oracle), total import equals an independent LP minimum, returned medium is sufficient (witnessed), model unchanged. "
+             "minimize_components=True on the stub's MILP contract (binary indicators enumerated inside the formula): None iff no medium "
+             "suffices, imports positive, returned medium sufficient, and no sufficient distribution imports through fewer exchanges "
+             "(universal).",
+        note="minimize_components: True only (one medium; alternative media through integer arguments are not exercised), 2 exchanges. "
+             "Forced-import situations where the setter must fail are a stated precondition. " + NOTE_COMMON, ref="4/C18"),
     "C19": dict(
         text="find_blocked_reactions (pre-filter, FVA, masks; reaction_list shapes; open_exchanges; model solved before the bounds were "
              "set, or never) on T6/T3/T2 with 3-4 symbolic reactions whose bounds span zero: reported => no steady-state distribution carries flux (universal), not reported => some "
@@ -251,7 +268,8 @@ def main():
                                      "re-execution with decision prefixes, quantifier elimination for LP feasibility forks"),
                  dict(name="symlp", path="vlib/symlp.py", serves_properties=sorted(CHECKS),
                       kind_free_text="optlang-compatible LP contract stub (KKT / infeasible / unbounded) reusing optlang's "
-                                     "own add/remove/update code")],
+                                     "own add/remove/update code; MILP contract for small numbers of bounded integer variables "
+                                     "(assignments enumerated inside the formula)")],
         checks=checks,
         not_applicable=na,
         notes="Exit codes of every command: 0 = all explored obligations discharged (KNOWN-FINDING lines for listed "
